@@ -106,10 +106,12 @@ func drainChannel(ch *tds.Channel, ctx context.Context) delivered {
 func awaitIdle(tr *xport.Transport, d time.Duration) bool {
 	done := make(chan bool, 1)
 	go func() { done <- tr.AwaitIdle() }()
+	t := time.NewTimer(d)
+	defer t.Stop() // an unstopped timer stays live until it fires
 	select {
 	case v := <-done:
 		return v
-	case <-time.After(d):
+	case <-t.C:
 		return false
 	}
 }
